@@ -1306,6 +1306,69 @@ func (c *Ctx) r108() {
 			isError := func(e ast.Expr) bool {
 				return strings.HasSuffix(str(e), ".ErrorToken")
 			}
+			// a token taken in a condition: `for tb.Shift().TokenType != K {}`
+			for _, y := range g.Nodes {
+				if y.Kind != flow.KCond || y.Expr == nil {
+					continue
+				}
+				be, ok := ast.Unparen(y.Expr).(*ast.BinaryExpr)
+				if !ok || (be.Op != token.EQL && be.Op != token.NEQ) || !strings.HasSuffix(str(be.X), ".TokenType") {
+					continue
+				}
+				shift := false
+				flowInspectCalls(be.X, func(call *ast.CallExpr) {
+					if strings.HasSuffix(calleeName(info, call), "TokenBuffer).Shift") {
+						shift = true
+					}
+				})
+				if !shift {
+					continue
+				}
+				var loopNode ast.Node
+				for x := c.P.Parent(y.Expr); x != nil; x = c.P.Parent(x) {
+					if fs, ok := x.(*ast.ForStmt); ok {
+						loopNode = fs
+						break
+					}
+					if _, ok := x.(*ast.FuncDecl); ok {
+						break
+					}
+				}
+				if loopNode == nil {
+					continue
+				}
+				n++
+				truth := isError(be.Y) != (be.Op == token.NEQ)
+				// from the outcome the stipulation selects, is there a way back to the condition inside the loop?
+				seen := map[*flow.Node]bool{}
+				var back []*flow.Node
+				var walk func(q *flow.Node, path []*flow.Node) bool
+				walk = func(q *flow.Node, path []*flow.Node) bool {
+					for _, sc := range q.Succs {
+						if sc == y {
+							back = append(path, sc)
+							return true
+						}
+						qa := sc.Ast()
+						if qa == nil && sc.Of != nil {
+							qa = sc.Of.Ast()
+						}
+						if seen[sc] || (qa != nil && !(loopNode.Pos() <= qa.Pos() && qa.End() <= loopNode.End())) {
+							continue
+						}
+						if q == y && (sc.Kind == flow.KTrue || sc.Kind == flow.KFalse) && (sc.Kind == flow.KTrue) != truth {
+							continue
+						}
+						seen[sc] = true
+						if walk(sc, append(path, sc)) {
+							return true
+						}
+					}
+					return false
+				}
+				hang := walk(y, nil)
+				c.R.Check(!hang, rule, fmt.Sprintf("%s.%s/token loop #%d leaves on ErrorToken", pk.Name, load.FuncName(fd), n), c.pos(y.Expr), "no way back to the Shift when the token is ErrorToken", "the loop condition takes another token although the lexer has reported ErrorToken — it will do so forever (`<svg><?xml-stylesheet href=\"a.css\"` never returns): "+pathStr(c, g, back))
+			}
 			for _, y := range g.Nodes {
 				a := y.Ast()
 				if a == nil || y.Kind != flow.KStmt {
